@@ -19,7 +19,8 @@
 (* reset when a declaration is left.  L1: Verdict(c), per container.       *)
 (* Deviations: LeakWalkState (cur survives the end of a function: a        *)
 (* package-level `var g = T{}` after the constructor is accepted),         *)
-(* CtorAnyPkg, NoUnalias.                                                  *)
+(* CtorAnyPkg, NoUnalias, CtorAnyType (a constructor of one type is exempt *)
+(* for every annotated type of its package).                               *)
 (***************************************************************************)
 EXTENDS Integers, Sequences, FiniteSets, TLC, Json
 
@@ -30,8 +31,10 @@ VARIABLES prog, fi, ci, ph, cur, diags
 vars == <<prog, fi, ci, ph, cur, diags>>
 
 Kinds  == {"ctor1", "ctor2", "other", "pmeth", "ometh", "init", "pkgvar", "pkgdecl"}
-Stmts  == {"lit", "addrLit", "elidedVal", "elidedPtr", "elidedMap", "new", "varZero", "varPtr", "varBlank", "onU"}
-Nests  == {"none", "if", "else", "for", "range", "switch", "select", "funclit", "defer", "go", "label"}
+Stmts  == {"lit", "addrLit", "elidedVal", "elidedPtr", "elidedMap", "new", "varZero", "varPtr", "varBlank", "onU",
+           "lit2", "new2", "varZero2"}   \* the same on T2, a second type of d with `@constructor NewT2` (iff T is annotated)
+Nests  == {"none", "if", "else", "for", "range", "switch", "select", "funclit", "defer", "go", "label",
+           "funcassign", "funcvar", "funcarg", "funcfield", "block", "ifinit", "typeswitch"}
 Spells == {"direct", "alias", "alias3", "rename", "paren"}
 
 \* csp = which accepted spelling of the constructor list is used (1..5), semantically irrelevant
@@ -44,21 +47,22 @@ Cont(k, s, n, sp) == [kind |-> k, stmt |-> s, nest |-> n, sp |-> sp]
 Valid(c, pkg) ==
   /\ (c.kind = "pmeth" => pkg = "d")
   /\ (c.kind = "pkgdecl" => c.stmt \in {"lit", "addrLit", "new", "varZero", "varPtr", "elidedVal"} /\ c.nest = "none")
-  /\ (c.stmt = "onU" => c.sp = "direct")
+  /\ (c.stmt \in {"onU", "lit2", "new2", "varZero2"} => c.sp = "direct")
   /\ (c.sp = "paren" => c.stmt \in {"new", "varZero", "varPtr", "varBlank"})
   /\ (c.sp \in {"rename", "alias3"} => pkg = "u")
 
 FnName(c) == CASE c.kind = "ctor1" -> "NewT" [] c.kind = "ctor2" -> "MakeT" [] c.kind = "init" -> "init"
                [] c.kind \in {"pkgvar", "pkgdecl"} -> "" [] OTHER -> "fn"
 
-CtorCode(s) == CASE s \in {"lit", "addrLit", "elidedVal", "elidedPtr", "elidedMap"} -> "CTOR01"
-                 [] s = "new" -> "CTOR02" [] s = "varZero" -> "CTOR03" [] OTHER -> "none"
+CtorCode(s) == CASE s \in {"lit", "addrLit", "elidedVal", "elidedPtr", "elidedMap", "lit2"} -> "CTOR01"
+                 [] s \in {"new", "new2"} -> "CTOR02" [] s \in {"varZero", "varZero2"} -> "CTOR03" [] OTHER -> "none"
+OnT2(s) == s \in {"lit2", "new2", "varZero2"}
 
 Verdict(c, ann, pkg) ==
   IF /\ ann.ctors # <<>>
      /\ CtorCode(c.stmt) # "none"
-     /\ ~(pkg = "d" /\ c.kind \in {"ctor1", "ctor2"} /\ FnName(c) \in Range(ann.ctors))
-  THEN CtorCode(c.stmt) ELSE "none"
+     /\ ~(~OnT2(c.stmt) /\ pkg = "d" /\ c.kind \in {"ctor1", "ctor2"} /\ FnName(c) \in Range(ann.ctors))
+  THEN CtorCode(c.stmt) ELSE "none"     \* NewT / MakeT are constructors of T, not of T2
 
 Keys(p) == UNION {{<<f, i>> : i \in 1..Len(p.files[f])} : f \in 1..Len(p.files)}
 L1(p) == {<<k[1], k[2], Verdict(p.files[k[1]][k[2]], p.ann, p.pkg)>> : k \in {k \in Keys(p) : Verdict(p.files[k[1]][k[2]], p.ann, p.pkg) # "none"}}
@@ -71,7 +75,7 @@ UniqueCtors(fs) ==
   LET all == UNION {{<<f, i>> : i \in 1..Len(fs[f])} : f \in 1..Len(fs)}
   IN \A k \in {"ctor1", "ctor2"} : Cardinality({x \in all : fs[x[1]][x[2]].kind = k}) <= 1
 
-SeqStmts == {"lit", "new", "varZero", "varPtr"}
+SeqStmts == {"lit", "new", "varZero", "varPtr", "lit2"}
 SeqAnns  == {a \in Anns : a.csp = 1 /\ ~a.imm /\ a.ctors # <<>>}
 SeqCont(pkg) == {c \in {Cont(k, s, "none", "direct") : k \in Kinds \ {"ometh", "ctor2"}, s \in SeqStmts} : Valid(c, pkg)}
 
@@ -121,7 +125,8 @@ Seen(c) == ~("NoUnalias" \in Deviations /\ c.sp \in {"alias", "alias3"})
 VisitVerdict(c) ==
   LET code == CtorCode(c.stmt)
       ownPkg == prog.pkg = "d" \/ "CtorAnyPkg" \in Deviations
-      exempt == ownPkg /\ cur \in Range(prog.ann.ctors)
+      ctorsOfType == IF OnT2(c.stmt) /\ ~("CtorAnyType" \in Deviations) THEN {"NewT2"} ELSE Range(prog.ann.ctors)
+      exempt == ownPkg /\ cur \in ctorsOfType
   IN IF prog.ann.ctors = <<>> \/ code = "none" \/ ~Seen(c) \/ exempt THEN "none" ELSE code
 
 Visit ==
